@@ -34,6 +34,7 @@ ExpectedY(s) ==
   /\ s.cur >= 0 /\ ~s.fin[s.cur+1] /\ s.ind[s.cur+1] = 0
   /\ \/ (Ph(s, s.cur) = "ready" /\ NextOp(s, s.cur).k \in {"yield", "spin"})
      \/ Ph(s, s.cur) = "parked"
+     \/ Ph(s, s.cur) = "ypend"
      \/ (Ph(s, s.cur) = "ready" /\ NextOp(s, s.cur).k = "exit" /\ s.dty[s.cur+1])   \* a destructor yielded
 
 Sorted(q) == \A i \in 1..(Len(q) - 1) : q[i] < q[i+1]
@@ -45,12 +46,14 @@ Dec(e) ==
      /\ Range(e.run) = MustOffer(s1) \cup Spurious(s1)
      /\ Range(e.sp) = Spurious(s1)
      /\ Range(e.nr) = Spurious(s1)
-     /\ e.det = <<>>
+     /\ Range(e.det) = {t \in Range(e.run) : s1.det[t+1]}
      /\ e.cur = s1.cur
      /\ e.y = ExpectedY(s1)
      /\ \/ /\ e.ch \in Range(e.run)
            /\ S' = [s1 EXCEPT !.cur = e.ch, !.slen = @ + 1,
-                              !.ind = IF s1.cur < 0 THEN @ ELSE [@ EXCEPT ![s1.cur+1] = @ + 1]]
+                              !.ind = IF s1.cur < 0 THEN @ ELSE [@ EXCEPT ![s1.cur+1] = @ + 1],
+                              \* a chosen future task is polled now (unless an abort makes this poll drop it)
+                              !.inpoll = IF s1.fut[e.ch+1] /\ ~MustCancel(s1, e.ch) THEN [@ EXCEPT ![e.ch+1] = TRUE] ELSE @]
         \* the scheduler returned no task: the execution stops here without failure
         \/ /\ e.ch = -1
            /\ S' = [s1 EXCEPT !.cur = -2]
@@ -82,6 +85,9 @@ Dt(e) ==
                     !.ind[t+1] = 0, !.dty[t+1] = Prog(S).tls_yield[sl.key + 1] # 0,
                     !.wk[t+1] = IF Prog(S).tls_yield[sl.key + 1] # 0 THEN TRUE ELSE @]
 
+\* the future of an aborted task was dropped before completion (logged from its Drop)
+Fdrop(e) == \E s1 \in Variants(S) : s1.canc[e.t+1] /\ s1.ix[e.t+1] = e.c /\ S' = s1
+
 \* a lazy static's value is dropped when the execution is cleaned up
 Over(s) == Ends(s) \/ BoundHit(s) \/ s.cur = -2
 DropEv(e) ==
@@ -96,12 +102,13 @@ Rnd(e) == S' = [S EXCEPT !.slen = @ + 1, !.rv = e.m]
 End(e) ==
   \E s1 \in Variants(S) :
      \* every lazy static initialised in this execution has been dropped, every thread-local instance too
-     /\ (e.v \in {"ok", "stopped"} => /\ \A i \in 0..1 : s1.once[Prog(s1).nonce + 2 + i + 1].st = "done" => i \in s1.lzdropped
+     /\ (e.v \in {"stopped"} \/ (e.v = "ok" /\ Unfinished(s1) = {}) => /\ \A i \in 0..1 : s1.once[Prog(s1).nonce + 2 + i + 1].st = "done" => i \in s1.lzdropped
                                        /\ ("tlslive" \in DOMAIN e => e.tlslive = 0))
-     /\ CASE e.v = "ok" -> \/ (~BoundHit(s1) /\ Ends(s1) /\ Unfinished(s1) = {})
+     /\ CASE e.v = "ok" -> \/ (~BoundHit(s1) /\ Ends(s1) /\ Attached(s1) = {})
                             \* abandoned silently by a continue-after bound (or: finished exactly on the bound)
-                            \/ (BoundHit(s1) /\ (~BoundFails(s1) \/ (Ends(s1) /\ Unfinished(s1) = {})))
-          [] e.v = "deadlock" -> ~BoundHit(s1) /\ Ends(s1) /\ Unfinished(s1) # {} /\ Range(e.bl) = Unfinished(s1)
+                            \/ (BoundHit(s1) /\ (~BoundFails(s1) \/ (Ends(s1) /\ Attached(s1) = {})))
+          \* a deadlock is reported iff an attached task is unfinished; the report names every unfinished task
+          [] e.v = "deadlock" -> ~BoundHit(s1) /\ Ends(s1) /\ Attached(s1) # {} /\ Range(e.bl) = Unfinished(s1)
           [] e.v = "maxsteps" -> BoundHit(s1) /\ BoundFails(s1)
           [] e.v = "stopped" -> s1 = S /\ S.cur = -2
           [] e.v = "panic" -> s1 = S /\ S.cur >= 0 /\ PanicKind(S, S.cur) # "" /\ e.pk = PanicKind(S, S.cur)
@@ -113,6 +120,7 @@ Apply(e) == CASE e.e = "exec" -> S' = InitState(ProgIdx(e.p))
               [] e.e = "op" -> Op(e)
               [] e.e = "rnd" -> Rnd(e)
               [] e.e = "dt" -> Dt(e)
+              [] e.e = "fdrop" -> Fdrop(e)
               [] e.e = "drop" -> DropEv(e)
               [] e.e = "end" -> End(e)
 
